@@ -65,6 +65,58 @@ def make_h(nmax, cons_sel, deep_subset):
     return h
 
 
+# ------------------------------------------------------------------ K2: symbolic node kinds over the whole grammar
+DOC_KINDS = {
+    # documented nesting constructs -> the grammar kinds that carry them
+    "typescript": ("if_statement", "for_statement", "for_in_statement", "while_statement", "do_statement", "try_statement", "switch_statement"),
+    "rust": ("if_expression", "match_expression", "for_expression", "while_expression", "loop_expression", "closure_expression", "async_block"),
+}
+DONT_CARE = {"typescript": ("with_statement",), "rust": ()}     # counted by the code, neither listed nor excluded by the docs
+
+
+def make_h_kinds(n):
+    def h(ctx):
+        from vsym.nodes import Duck
+        from vsym.pathex import If
+        from vsym.symkind import SKind, SymSet, kind_table
+        lang = ctx.pick("grammar", ("typescript", "rust"))
+        table = kind_table(lang)
+        if lang == "typescript":
+            from src.linters.nesting.typescript_analyzer import TypeScriptNestingAnalyzer as A
+            body_kind, fn_kind = "statement_block", "function_declaration"
+            if_kind = "if_statement"
+        else:
+            from src.linters.nesting.rust_analyzer import RustNestingAnalyzer as A
+            body_kind, fn_kind = "block", "function_item"
+            if_kind = "if_expression"
+        kinds = [SKind(ctx, f"kind{i}", table) for i in range(n)]
+        for k in kinds:
+            for dc in DONT_CARE[lang]:
+                ctx.assume(k != dc)
+        # chain: body -> node0 -> node1 -> ... -> leaf ; rows increase so the deepest line is known
+        leaf = Duck("identifier", "x", start=(n + 2, 0))
+        node = leaf
+        for i in reversed(range(n)):
+            node = Duck(kinds[i], "", [node], start=(i + 2, 0))
+        body = Duck(body_kind, "", [node], start=(1, 0))
+        func = Duck(fn_kind, "", [Duck("identifier", "f"), body], start=(0, 0))
+        saved = A.NESTING_NODE_TYPES
+        try:
+            A.NESTING_NODE_TYPES = SymSet(saved)
+            depth, _line = A().calculate_max_depth(func)
+        finally:
+            A.NESTING_NODE_TYPES = saved
+        spec = 1
+        for i, k in enumerate(kinds):
+            counted = k.is_one_of(DOC_KINDS[lang])
+            if i > 0:   # an else-if continues its chain (documented: an if/elif/else chain counts once)
+                counted = And(counted, Not(And(k == if_kind, kinds[i - 1] == "else_clause")))
+            spec = spec + If(counted, 1, 0)
+        ctx.cover("depth>1" if (depth > 1 if not hasattr(depth, "z") else bool(depth > 1)) else "depth=1")
+        ctx.require("every-listed-kind-adds-a-level-and-nothing-else-does", Eq(depth, spec), grammar=lang, chain=n)
+    return h
+
+
 def _all(lang):
     return render.constructs(lang)
 
@@ -91,4 +143,11 @@ def obligations(tier):
                   % (nmax, "py %d / ts %d / rs %d kinds" % (len(render.PY), len(render.TS), len(render.RS))),
            timeout=300 if tier == "quick" else 2400, workers=14, must_cover=("reported", "clean"),
            outside="JSX, macros, labelled blocks, generators, Python match/case, constructs inside nested functions"),
+        Ob(name="K2-symbolic-node-kinds-whole-grammar", engine="pathex", harness=make_h_kinds(3 if tier == "quick" else 5),
+           functions=["TypeScriptNestingAnalyzer.calculate_max_depth/_increases_depth", "RustNestingAnalyzer.calculate_max_depth/_increases_depth"],
+           bounds="chain of %d duck-typed nodes below the function body; the kind of EVERY node is a solver variable ranging over the complete kind table of the real grammar "
+                  "(TypeScript 383 kinds, Rust 355 kinds; symbolic to the end) - one path per behaviour class" % (3 if tier == "quick" else 5),
+           timeout=300 if tier == "quick" else 1500, workers=8, must_cover=("depth>1", "depth=1"),
+           stubs=("duck-typed tree-sitter nodes", "SymSet wrapper around NESTING_NODE_TYPES (membership = disjunction over the real constant's current elements)"),
+           outside="with_statement (counted by the code, neither listed nor excluded by the documentation)"),
     ]
